@@ -5,6 +5,11 @@ use crate::report::{Report, J};
 use crate::rng::{fnv64, Rng};
 
 pub mod batch;
+pub mod bcrypt;
+pub mod history;
+pub mod hazmat;
+pub mod total;
+pub mod xconfig;
 pub mod keylen;
 pub mod names;
 pub mod wblock;
@@ -34,6 +39,11 @@ pub struct Ctx {
     pub prop: Option<String>,
     /// skip shadow-crate entries
     pub no_shadow: bool,
+    /// interpreter / sanitizer slices: only entries whose (name hash + seed) mod M equals the
+    /// shard number are run, so each shard takes a disjoint 1/M slice that moves with the seed
+    pub sample_mod: Option<u64>,
+    /// raw command line (monitor-specific flags)
+    pub flags: Vec<String>,
 }
 impl Ctx {
     pub fn rng(&self, tag: &str) -> Rng {
@@ -44,8 +54,17 @@ impl Ctx {
         let b = if self.tier == Tier::Quick { quick } else { thorough } as f64 * self.scale / self.nshards as f64;
         (b as u64).max(min)
     }
+    pub fn sampled(&self, id: &str) -> bool {
+        match self.sample_mod {
+            Some(m) if m > 0 => fnv64(id.as_bytes()).wrapping_add(self.seed) % m == self.shard % m,
+            _ => true,
+        }
+    }
     pub fn wants(&self, e: &Entry) -> bool {
         if self.no_shadow && e.shadow {
+            return false;
+        }
+        if !self.sampled(&e.id()) {
             return false;
         }
         if let Some(p) = &self.prop {
@@ -60,6 +79,9 @@ impl Ctx {
     }
     pub fn wants_name(&self, name: &str) -> bool {
         if self.no_shadow && name.starts_with("S:") {
+            return false;
+        }
+        if !self.sampled(name) {
             return false;
         }
         match &self.filter {
